@@ -143,6 +143,44 @@ def precond_ok(unique, beacon, world):
     return True
 
 
+def near_duplicate(r, world, types, colors, unique=None, beacon=False):
+    """a copy of `world` that differs in exactly one attribute which the library's own equality may or may
+    not see: a box's content, a door's status, one object's colour, the held item, the heading.
+    (States that are equal "up to one hidden detail" are what caches keyed on too little confuse.)"""
+    import copy
+
+    w = copy.deepcopy(world)
+    cells = [(y, x) for y in range(w['h']) for x in range(w['w'])]
+    boxes = [p for p in cells if w['cells'][p[0]][p[1]][0] == 'Box']
+    doors = [p for p in cells if w['cells'][p[0]][p[1]][0] == 'Door' and unique != 'Door']
+    coloured = [p for p in cells if w['cells'][p[0]][p[1]][0] in ('Key', 'Exit', 'Telepod') and len(colors) > 1]
+    kinds = (['box'] * 4 if boxes else []) + (['door'] * 2 if doors else []) + (['colour'] if coloured else []) + ['held', 'heading']
+    k = r.choice(kinds)
+    if k == 'box':
+        y, x = r.choice(boxes)
+        inner = [t for t in types if t not in ('Box', unique) and not (beacon and t == 'Beacon')] or ['Floor']
+        old = w['cells'][y][x][1]
+        for _ in range(8):
+            new = gen_obj(r, r.choice(inner), colors)
+            if list(new) != list(old):
+                w['cells'][y][x] = ['Box', new]
+                break
+    elif k == 'door':
+        y, x = r.choice(doors)
+        d = w['cells'][y][x]
+        w['cells'][y][x] = ['Door', r.choice([st for st in STATUSES if st != d[1]]), d[2]]
+    elif k == 'colour':
+        y, x = r.choice(coloured)
+        d = w['cells'][y][x]
+        w['cells'][y][x] = [d[0], r.choice([c for c in colors if c != d[1]])]
+    elif k == 'held':
+        ht = [t for t in types if t not in ('Floor', unique) and not (beacon and t == 'Beacon')]
+        w['agent'][3] = ['NoneGridObject'] if w['agent'][3][0] != 'NoneGridObject' or not ht else gen_obj(r, r.choice(ht), colors, inner=[t for t in types if t not in ('Box', unique, 'Beacon')] or ['Floor'])
+    else:
+        w['agent'][2] = r.choice([h for h in HEADINGS if h != w['agent'][2]])
+    return w
+
+
 def gen_types(r, must=()):
     n = r.randint(2, len(BUILTIN_TYPES))
     ts = set(r.sample(BUILTIN_TYPES, n)) | {'Floor'} | set(must)
@@ -357,6 +395,10 @@ def gen_hand_client(r, *, hmax=8, wmax=8, allow_stochastic=True, deterministic_o
             unique, wkw['unique'] = None, None
             world = mk()
             pool = [mk() for _ in pool]
+    if n_pool and r.random() < 0.35:
+        # near-duplicate states: equal up to one detail (box content, door status, colour, held item, heading)
+        for src in r.sample([world] + pool, min(2, 1 + len(pool))):
+            pool.append(near_duplicate(r, src, types, colors, unique, beacon))
     rewards = [gen_reward(r, types, unique, beacon) for _ in range(r.randint(1, 3))]
     spec = {
         'kind': 'hand',
